@@ -123,6 +123,8 @@ def stopWords : List String := Gen.Stats.englishStopWords ++ Gen.Stats.techStopW
 /-- `removeNormalWords`: delete every stop word -/
 def removeStop (m : List (String × Nat)) : List (String × Nat) := stopWords.foldl GoMap.erase m
 
-def conceptReport (clzs : List DS) : List (String × Nat) := sortWord (removeStop (countWords (allWords clzs)))
+def conceptReport' (ws : List String) : List (String × Nat) := sortWord (removeStop (countWords ws))
+
+def conceptReport (clzs : List DS) : List (String × Nat) := conceptReport' (allWords clzs)
 
 end CocaVerif.Stats
